@@ -668,7 +668,7 @@ def r4_caller(run, w, ip):
       if cc is None or cc.conds or cc.kind != "list" or cc.iter_text != fixes_t:
         return None
       for k in (0, 1):
-        if cc.value == "_v0[%d]" % k:
+        if cc.value in ("_v0[%d]" % k, "_v0_%d" % k):
           return k
       return None
 
